@@ -274,6 +274,7 @@ def register(R):
       ensures=['result._shard_state.shard_index == self._shard_state.shard_index + self._shard_state.num_shards * shard_index',
                'result._shard_state.num_shards == self._shard_state.num_shards * num_shards',
                'result.data is self.data', 'result._shard_state.start_index == 0'],
+      witness=dict(a='self._shard_state.shard_index', m='self._shard_state.num_shards', i='shard_index', n='num_shards'), replay='replay_sharded_iterable',
       bounded='bounded_sharded_iterable',
       note='shard i of n of the shard (a mod m) is the residue class (a + m*i mod m*n); the lemmas below show that this IS '
            '"every n-th element of the parent shard, starting with its i-th" (the D3 defect re-sharded the root instead)'))
